@@ -4,6 +4,10 @@
 import VsgModel.Engine.RuleRun
 import VsgModel.Engine.Relations
 import VsgModel.Check.Verdict
+import VsgProofs.Lemmas.BaseWsEffects
+import VsgProofs.Lemmas.BaseWsLines
+import VsgProofs.Lemmas.BaseBindEffects
+import VsgProofs.Lemmas.PostPhase1
 namespace Vsgm.C07
 open Vsgm
 
@@ -55,5 +59,122 @@ theorem caseOnly_lines (fold : Str → Str) (a b : List Tok) (h : CaseOnly fold 
         rw [this]
 
 example : lineOfIndex [⟨9, .code, "a".toList⟩, ⟨2, .cr, []⟩, ⟨9, .code, "b".toList⟩] 2 = 2 := by decide
+
+/-! ### layer B: the whitespace family — BEGIN ag_bws -/
+
+/-- **every `_fix_violation` of the whitespace family (187 rules), all actions, all token lists**: the line
+    breaks are kept — `_partial`: the guard `wsGuard (· ≠ cr)` says that no old token the fix deletes is a
+    carriage return (overwriting a VALUE never changes a line break) -/
+theorem bfix_ws_crSeq_partial (owner : String) (params action : Base.KV) (old new : List Tok)
+    (ho : owner ∈ Base.wsOwners) (h : Base.fixByOwner owner params action old = some (.ok new))
+    (hg : Base.wsGuard (fun k => k != .cr) owner params action old = true) : crSeq old = crSeq new := by
+  rw [Base.fixByOwner_ws _ _ _ _ ho] at h
+  exact Base.ws_crSeq owner params action old new ho h hg
+
+/-- whitespace_between_tokens with `number_of_spaces ≠ 0`: no guard at all -/
+theorem bfix_wsBetween_crSeq (params action : Base.KV) (old new : List Tok) (nos : Base.NoS)
+    (hn : Base.nosOf (params.get "number_of_spaces") = .ok nos) (hn0 : nos ≠ .int 0)
+    (h : Base.fixByOwner Base.wsBetweenOwner params action old = some (.ok new)) : crSeq old = crSeq new := by
+  apply bfix_ws_crSeq_partial _ params action old new (by decide +kernel) h
+  have hne : (nos == Base.NoS.int 0) = false := by simpa using hn0
+  simp [Base.wsGuard, hn, Base.WsBetween.guard, Base.WsBetween.touched, hne]
+
+/-- the guard is needed: whitespace_008 pops the last token whatever it is — also a line break -/
+theorem bfix_ws008_cr_witness :
+    ∃ old new, Base.fixByOwner Base.ws008Owner [] [] old = some (.ok new) ∧ crSeq old ≠ crSeq new :=
+  ⟨[⟨9, .code, "a".toList⟩, ⟨5, .cr, "\n".toList⟩], [⟨9, .code, "a".toList⟩], by decide +kernel, by decide +kernel⟩
+
+/-- **B-full, line locality of whitespace_between_tokens (171 rules)**: the file is `pre ++ old ++ suf`, the
+    violation is reported on the line of `old[0]` (`oToi.get_line_number()`, the line of the region start).
+    Every line the fix changes has the number `reported + 1` if `old[0]` is a carriage return and `reported`
+    otherwise: the changed line is the reported line exactly when the region does not start with a line break
+    (or nothing changed).  (`number_of_spaces = 0`: for the three-token regions `[left, whitespace, right]`
+    the analysis produces.)  Lines as the trace checker splits and compares them. -/
+theorem bfix_wsBetween_lineLocal (params action : Base.KV) (old new pre suf : List Tok) (nos : Base.NoS)
+    (hn : Base.nosOf (params.get "number_of_spaces") = .ok nos)
+    (h3 : nos = .int 0 → old.length = 3 ∧ ∀ t, old[1]? = some t → t.kind = .ws)
+    (h : Base.fixByOwner Base.wsBetweenOwner params action old = some (.ok new)) :
+    ∀ n ∈ Verdict.changedLines (Verdict.lineSplit (pre ++ old ++ suf) [] []) (Verdict.lineSplit (pre ++ new ++ suf) [] []) 1,
+      n = lineOfIndex (pre ++ old ++ suf) pre.length + (if (old.head?.map (·.isCr)) = some true then 1 else 0) := by
+  rw [Base.fixByOwner_ws _ _ _ _ (by decide +kernel)] at h
+  simp only [Base.wsFixByOwner, beq_self_eq_true, if_true, Option.some.injEq, hn, bind, Except.bind] at h
+  obtain ⟨a, mid, mid', tail, rfl, rfl, _, _, hm, hm'⟩ := Base.WsBetween.fix_local _ nos action old new h3 h
+  have hcr : ∀ (m : List Tok), (∀ t ∈ m, t.kind = .ws) → ∀ t ∈ m, t.isCr = false := by
+    intro m hm t ht; simp [Tok.isCr, hm t ht]
+  obtain ⟨p, ln, ln', post, e1, e2, e3, _⟩ :=
+    Base.lines_local (pre ++ [a]) mid mid' (tail ++ suf) (hcr mid hm) (hcr mid' hm')
+  have f1 : pre ++ (a :: mid ++ tail) ++ suf = pre ++ [a] ++ mid ++ (tail ++ suf) := by simp
+  have f2 : pre ++ (a :: mid' ++ tail) ++ suf = pre ++ [a] ++ mid' ++ (tail ++ suf) := by simp
+  intro n hn'
+  rw [Base.lineSplit_linesOf, Base.lineSplit_linesOf, f1, f2, e1, e2, Base.changedLines_local] at hn'
+  have hline : lineOfIndex (pre ++ (a :: mid ++ tail) ++ suf) pre.length = 1 + (crSeq pre).length := by
+    unfold lineOfIndex
+    rw [List.append_assoc, List.take_left']; rfl
+  rw [hline]
+  split at hn'
+  · cases hn'
+  · simp only [List.mem_singleton] at hn'
+    rw [hn', e3, crSeq_append]
+    by_cases hc : a.isCr = true
+    · simp [crSeq, hc]; omega
+    · simp [crSeq, hc]
+
+/-- the case distinction is not vacuous: a region that starts with a line break is repaired on the NEXT line -/
+example :
+    let old : List Tok := [⟨5, .cr, "\n".toList⟩, ⟨9, .code, "a".toList⟩]
+    let new : List Tok := [⟨5, .cr, "\n".toList⟩, ⟨Gen.wsCls, .ws, " ".toList⟩, ⟨9, .code, "a".toList⟩]
+    Base.fixByOwner Base.wsBetweenOwner [("number_of_spaces", .int 1)] [("spaces", .int 1)] old = some (.ok new) ∧
+      Verdict.changedLines (Verdict.lineSplit old [] []) (Verdict.lineSplit new [] []) 1 = [2] := by
+  decide +kernel
+
+/-! END ag_bws -/
+
+/-! ### BEGIN ag_bind (indent / vertical spacing / post-phase-1) -/
+
+/-! ### layer B: indent family keeps every line break; vertical spacing changes the line count by exactly
+    what it inserts / cuts; post-phase-1 normalisation keeps every line break -/
+
+/-- indent rules: `adjust_whitespace`, `add_whitespace` and unknown actions keep the line breaks of
+    EVERY token list; `remove_whitespace` does if no carriage return sits outside index 1 -/
+theorem bfix_indent_crSeq_partial (owner : String) (params action : Base.KV) (old new : List Tok)
+    (ho : owner ∈ Base.indentOwners) (h : Base.fixByOwner owner params action old = some (.ok new))
+    (hok : Base.strAction action = Base.Indent.sRemove → ∀ t ∈ old.eraseIdx 1, t.isCr = false) :
+    crSeq old = crSeq new := by
+  obtain ⟨style, size, h'⟩ := Base.Bind.indent_fixV_of_owner owner params action old new ho h
+  exact Base.Indent.fixV_crSeq _ _ _ _ _ _ _ h' hok
+
+/-- without the hypothesis `remove_whitespace` can join two lines -/
+theorem bfix_indent_crSeq_false :
+    ∃ params action old new, Base.fixByOwner "vsg.rules.token_indent.token_indent" params action old = some (.ok new) ∧
+      crSeq old ≠ crSeq new :=
+  ⟨[("indent_size", .int 2), ("indent_style", .str "spaces".toList)],
+   [("_str", .str "remove_whitespace".toList)],
+   [⟨Gen.crCls, .cr, ['\n']⟩, ⟨9, .code, "b".toList⟩], [⟨9, .code, "b".toList⟩],
+   by decide +kernel, by decide +kernel⟩
+
+/-- vertical spacing, every action, every token list: exactly one line break more (a blank line
+    inserted), the same, or the line breaks of the two pieces that were cut off fewer -/
+theorem bfix_blankline_crSeq (owner : String) (params action : Base.KV) (old new : List Tok)
+    (ho : owner ∈ Base.blankLineOwners) (h : Base.fixByOwner owner params action old = some (.ok new)) :
+    crSeq new = () :: crSeq old ∨ crSeq new = crSeq old ∨
+      ∃ pre suf, old = pre ++ new ++ suf ∧ crSeq old = crSeq pre ++ crSeq new ++ crSeq suf := by
+  rcases Base.Bind.blankline_shape owner params action old new ho h with ⟨_, hr⟩ | hr | hr | ⟨pre, suf, c⟩
+  · left; rw [hr]; rfl
+  · left; rw [hr, crSeq_append]
+    have : crSeq [Base.BlankLine.crTok Gen.crCls, Base.BlankLine.blankTok Gen.blankCls] = [()] := rfl
+    rw [this]
+    generalize crSeq old = u
+    induction u with
+    | nil => rfl
+    | cons a u ih => cases a; simp [ih]
+  · right; left; rw [hr]
+  · right; right; exact ⟨pre, suf, c, c.crSeq⟩
+
+/-- the post-phase-1 normalisation keeps the line count of every token list -/
+theorem postPhase1_crSeq (blCls : Nat) (l : List Tok) : crSeq (Post.postPhase1 blCls l) = crSeq l := by
+  unfold Post.postPhase1
+  rw [Post.fixTrailingWhitespace_eq, Post.fixBlankLines_eq, Post.ftwGo_crSeq, Post.fblGo_crSeq]
+
+/-! ### END ag_bind -/
 
 end Vsgm.C07
